@@ -12,11 +12,12 @@
 """
 from __future__ import annotations
 
+import contextlib
 import hashlib
 import threading
 import time
 
-from . import tcpnet, svc
+from . import inject, tcpnet, svc
 from .common import Result, rng
 
 LEVEL = 'exploration'
@@ -220,7 +221,10 @@ def run_round(res, case, attempt=0):
         except Exception as exc:
             out['error'] = exc
 
-    with tcpnet.instrument(net):
+    inj = {}
+    # every other round stretches the windows inside the file-creation path (vf/inject.py)
+    with tcpnet.instrument(net), (inject.line_delays(inject.STORAGE_PATH, seed=seed * 19 + k, stats=inj)
+                                  if (k % 4 < 2 and not attempt) else contextlib.nullcontext()):
         server = Server('SERVER', 0, max_pdu_length=16384)
         server.net = net
         server.timeout = 8
@@ -241,6 +245,7 @@ def run_round(res, case, attempt=0):
             tcpnet.wait_quiet(0, 5.0)
             handler_errors = list(getattr(server, 'handler_errors', []))
     leftover = len(tcpnet.provider_threads())
+    res.count('inject.lines-delayed', inj.get('hits', 0))
     sig = net.signature()
     res.distinct.add(sig)
     res.notes['interleaving_signatures'] = [sig]
@@ -350,7 +355,8 @@ def msg_ids(res, seed, nthreads):
     def worker(t):
         start.wait()
         seq = []
-        for _ in range(per):
+        # one thread draws as many ids as a 16-bit message id field can tell apart
+        for _ in range(per if t else 65535):
             seq.append(pynetdicom2._new_msg_id())
             if len(seq) % 97 == 0:
                 time.sleep(0)
@@ -371,7 +377,7 @@ def msg_ids(res, seed, nthreads):
         if len(set(seq)) != len(seq):
             res.violation('message-id-repeated-in-thread', 'C20.msg-id',
                           'thread %d: %d ids, %d distinct' % (t, len(seq), len(set(seq))), case)
-        elif seq != list(range(seq[0], seq[0] + per)):
+        elif seq != list(range(seq[0], seq[0] + len(seq))):
             res.violation('message-id-sequence-influenced-by-other-threads', 'C20.msg-id',
                           'thread %d: ids not consecutive: %r...' % (t, seq[:8]), case)
     res.sample({'msg_id_threads': nthreads, 'per_thread': per,
